@@ -361,6 +361,23 @@ def run_config(chk, cfg):
                                                               "one side only" if len(rs) == 1 else
                                                               "a producer-side API function that also advances readi races with the consumer and "
                                                               "destroys unread bytes"), fn.loc, fn.name)
+    # the indices must be able to hold every position of the ring: at least as wide as buf_len, or a full unsigned int
+    # (rings of 2^32 bytes and more are outside what the unsigned-int arithmetic of ringbuf.c addresses anyway)
+    mr = [m for m in mods if m.unit.endswith("ringbuf.c")]
+    tid = mr[0].di_by_name.get("ringbuf_t") if mr else None
+    if tid:
+        sz = {pth: size for pth, off, size, ty in mr[0].di_leaves(tid)}
+        need = min(sz.get("buf_len", 8), 4)
+        for f in ("readi", "writei"):
+            ok = sz.get(f, 0) >= need
+            chk.ob("R3.index-width", "ringbuf_t.%s[%s]" % (f, cfg), ok,
+                   "%s is %d bytes wide, buf_len %d: every position below buf_len is representable" % (f, sz.get(f, 0), sz.get("buf_len", 0)) if ok else
+                   "%s is %d bytes wide but buf_len is a %d-byte quantity that nothing limits: in a ring longer than %d bytes the stored index "
+                   "wraps to 0 while the value compared with the peer index does not, so a full ring accepts a put (writei catches up with "
+                   "readi) and unread bytes are overwritten" % (f, sz.get(f, 0), sz.get("buf_len", 0), 1 << (8 * sz.get(f, 0))),
+                   "include/librfn/ringbuf.h", "ringbuf_t")
+    else:
+        chk.unknown("R3.index-width", "ringbuf_t[%s]" % cfg, "anchor vanished: ringbuf_t has no debug info")
     users = FREE_SLOT_USERS.pop(cfg, {})
     both = "consumer" in users and "producer" in users
     chk.ob("R1.free-slot-one-user", "ringbuf[%s]" % cfg, not both,
@@ -373,6 +390,14 @@ def run_config(chk, cfg):
     chk.expect("R2", "consumer functions [%s]" % cfg, len(roles.get("consumer", [])), 1)
     chk.expect("R1", "publishing paths [%s]" % cfg, n_pub, 2)
     return roles
+
+
+def check_static_initialiser(chk):
+    from . import macrohyg
+    B = macrohyg.W_BASE
+    macrohyg.check(chk, "R6.static-initialiser", "RINGBUF_VAR_INIT", "librfn/ringbuf.h", "ringbuf_t",
+                   "RINGBUF_VAR_INIT(W + 2, a0 ? 24 : 16)", 1,
+                   lambda a: {"bufp": B + 8, "buf_len": 24 if a[0] else 16, "readi": 0, "writei": 0})
 
 
 def run(chk):
@@ -398,3 +423,5 @@ def run(chk):
     chk.not_decided += ["exactly-once, in-order delivery over all interleavings"]
     for cfg in ("default", "noatomics"):
         run_config(chk, cfg)
+    chk.rule("R6", "RINGBUF_VAR_INIT uses each argument as one expression: bufp is the (converted) pointer argument, buf_len the length argument, both indices 0")
+    check_static_initialiser(chk)
